@@ -472,9 +472,9 @@ def with_strict(srcs):
 
 # ===================================================================================================
 # Known findings on the unchanged tree: narrow syntactic exclusions (pinned witnesses in known/C01.ndjson)
-_ex(r'\bisNaN\s*\(', 'K02 calls of isNaN(...) (rewritten to x!=x: wrong for non-number operands)')
-_ex(r'\bMath\s*\.\s*trunc\s*\(', 'K03 calls of Math.trunc(...) (rewritten to x|0: wrong beyond int32, NaN, -0)')
-_ex(r'\bMath\s*\.\s*abs\s*\(', 'K04 calls of Math.abs(...) (rewritten to x<0?-x:x: wrong for -0 and non-numbers)')
+_ex(r'\bisNaN\s*\(\s*[A-Za-z_$][\w$]*\s*\)', 'K02 isNaN(identifier) (rewritten to x!=x: wrong for non-number operands; other argument forms are not rewritten)')
+_ex(r'\bMath\s*\.\s*trunc\s*\([^,()]*(\([^()]*\)[^,()]*)*\)', 'K03 Math.trunc(one argument) (rewritten to x|0: wrong beyond int32, NaN, -0)')
+_ex(r'\bMath\s*\.\s*abs\s*\(\s*[A-Za-z_$][\w$]*\s*\)', 'K04 Math.abs(identifier) (rewritten to x<0?-x:x: wrong for -0 and non-numbers; other argument forms are not rewritten)')
 _ex(r'\breturn\b[^;{}]*\b(undefined|void\s*\(?\s*0\s*\)?)\s*;?\s*\}',
     'K01 a function body ending in `return ...,undefined` / `return void 0` after expression statements (return a,b,void 0 -> return a,b)')
 _ex(_paren_optchain, 'K06 a parenthesised optional chain continued by a member/call ((a?.b.c).d -> a?.b.c.d)')
